@@ -222,6 +222,9 @@ def _numeric():
                                                      "        assert Numeral(16, lo, hi).is_exact_match('f' * k) == exp, (lo, hi, k)\n        assert Numeral(2, lo, hi, is_extensible=True).is_exact_match('10' * (k // 2) + '1' * (k % 2)) == exp, (lo, hi, k)\n"
                                                      "        assert Word(lo, hi).is_exact_match('w' * k) == exp, (lo, hi, k)\n        assert Word(lo, hi, is_extensible=True).is_exact_match('w' * k) == exp, (lo, hi, k)\n"
                                                      "        assert Word(lo, hi).get_matches(' ' + 'w' * k + ' ') == (['w' * k] if exp else []), (lo, hi, k)"),
+        ("every number of affixes from 1 to 130, 192, 193, 257", "affs = ['k%03dz' % i for i in range(300)]\nfor n in list(range(1, 131)) + [192, 193, 256, 257]:\n    lst = affs[:n]\n    for cls, mk in ((WordContains, lambda a: 'xx' + a + 'yy'), (WordStartsWith, lambda a: a + 'yy'), (WordEndsWith, lambda a: 'xx' + a)):\n"
+                                                                 "        p = cls(lst)\n        for a in (lst[0], lst[-1], lst[n // 2], lst[max(0, n - 2)], lst[min(n - 1, 63)], lst[min(n - 1, 64)]):\n            assert p.is_exact_match(mk(a)), (cls.__name__, n, a)\n        assert not p.is_exact_match(mk(affs[n])), (cls.__name__, n)\n"
+                                                                 "    if n % 16 == 1:\n        q = WordContains(lst, is_extensible=True)\n        assert q.is_exact_match('xx' + lst[-1] + 'yy') and not q.is_exact_match('xx' + affs[n] + 'yy'), n"),
         ("length bounds with five and more digits", "for hi in (65534, 65535, 65536, 70000, 100000):\n    for mk, unit in ((lambda: Word(1, hi), 'w'), (lambda: Word(3, hi, is_extensible=True), 'w'), (lambda: Numeral(2, 3, hi), '1'), (lambda: Numeral(16, 1, hi, is_extensible=True), 'f')):\n        p = mk()\n"
                                                     "        assert p.is_exact_match(unit * hi) and not p.is_exact_match(unit * (hi + 1)) and p.is_exact_match(unit * (hi - 1)), hi\n"
                                                     "assert AtMost('a', 70000).is_exact_match('a' * 70000) and not AtMost('a', 70000).is_exact_match('a' * 70001)\nassert AtLeastAtMost('ab', 2, 65535).is_exact_match('ab' * 65535) and not AtLeastAtMost('ab', 2, 65535).is_exact_match('ab' * 65536)"),
